@@ -5,6 +5,8 @@
 #include <cstdlib>
 
 #include <bxdecay0/decay0_generator.h>
+#include <bxdecay0/genbbsub.h>
+#include <bxdecay0/bb.h>
 
 #include "common/evtrace.h"
 #include "common/vh.h"
@@ -73,6 +75,39 @@ int main(int argc, char ** argv)
           if (win_out) {
             if (w < 0) std::fprintf(win_out, "{\"e\":\"Full\",\"r\":%lld}\n", std::llround(rc * 1e6));
             else std::fprintf(win_out, "{\"e\":\"Narrow\",\"lo\":%lld,\"hi\":%lld,\"r\":%lld}\n", vh::ev_i8(g.get_bb_params().ebb1), vh::ev_i8(g.get_bb_params().ebb2), std::llround(rc * 1e6));
+          }
+        } catch (std::exception & e) {
+          err = e.what();
+        }
+      }
+      std::printf("{\"id\":\"%s\",\"error\":\"%s\"}\n", id.c_str(), vh::json_escape(err).c_str());
+    } else if (k == "V") {
+      // the same chain through the legacy interface: ONE caller-owned bbpars block, initialised again for every window
+      // (genbbsub ISTART_INIT, no reset of the block in between); the chain starts with the full range
+      int n;
+      ls >> n;
+      if (win_out) std::fprintf(win_out, "{\"e\":\"Reset\",\"id\":\"%s\"}\n", id.c_str());
+      std::string err;
+      bxdecay0::bbpars pars;
+      for (int w = -1; w < n && err.empty(); w++) {
+        double lo = 0.0, hi = 4.3;
+        if (w >= 0) ls >> lo >> hi;
+        vh::stream prng(1);
+        bxdecay0::event ev;
+        int ier = 0;
+        try {
+          pars.ebb1 = lo;
+          pars.ebb2 = hi;
+          bxdecay0::genbbsub(prng, ev, bxdecay0::GENBBSUB_I2BBS_DBD, iso, level, mode, bxdecay0::GENBBSUB_ISTART_INIT, ier, pars);
+          if (ier != 0) {
+            err = "genbbsub refuses (ier=" + std::to_string(ier) + ")";
+            break;
+          }
+          double r  = pars.toallevents;
+          double rc = std::isfinite(r) ? std::min(r, 2000.0) : -1.0;
+          if (win_out) {
+            if (w < 0) std::fprintf(win_out, "{\"e\":\"Full\",\"r\":%lld}\n", std::llround(rc * 1e6));
+            else std::fprintf(win_out, "{\"e\":\"Narrow\",\"lo\":%lld,\"hi\":%lld,\"r\":%lld}\n", vh::ev_i8(pars.ebb1), vh::ev_i8(pars.ebb2), std::llround(rc * 1e6));
           }
         } catch (std::exception & e) {
           err = e.what();
